@@ -39,6 +39,8 @@ int choose(int n, const char* label = "choice");
 int self();                                                    // scheduler thread id, -1 if unscheduled
 void atomicPoint(const void* addr);                            // atomics pass: scheduling point at an atomic op on a shared address
 size_t atomicPoints();
+void setInterruptBudget(int n);                                // fault axis: up to n blocking reads return EINTR (each one a recorded choice)
+void exemptThisThreadFromFaults();                             // harness threads (clients) are never interrupted
 bool othersBlocked();                                          // no other thread is enabled right now (for use inside pointIf predicates)
 
 // called (in the failing process) when no thread is enabled and no timeout is pending / step horizon exceeded;
